@@ -373,6 +373,48 @@ def run_history(kind, actions, res, case, graph=True):
             wd.close()
 
 
+def cancelled_disconnect(res, kind, pre, k):
+    """disconnect() is abandoned by its caller (cancelled / timed out) after k event-loop iterations. Whatever it had done by
+    then, the flag must agree with the socket: once the device has seen end-of-stream the client is not connected. A
+    complete disconnect afterwards leaves flag False and the socket closed, and the client can connect again."""
+    case = {"part": "canceldisconnect", "kind": kind, "pre": list(pre), "k": k,
+            "actions": list(pre) + [f"disconnect cancelled after {k} loop iterations", "disconnect", "connect", "disconnect"]}
+    set_zone("UTC")
+    with Clock(1_700_000_000.0):
+        wd = World(kind)
+        try:
+            for n, a in enumerate(pre):
+                if not wd.step(a, res, case, n):
+                    return None
+            task = wd.loop.create_task(wd.w.api.disconnect())
+            for _ in range(k):
+                wd.loop.step()
+            task.cancel()
+            wd.loop.settle()
+            if not task.done():
+                res.violation("cancelled-disconnect-hangs", case, f"disconnect cancelled after {k} loop iterations never finished")
+                return None
+            out = task_outcome(task)
+            conn = wd.loop.conns[-1]
+            conn.poll()
+            ended = bool(conn.eof or conn.closed)
+            flag = wd.w.api.connected
+            tag = f"after disconnect was cancelled after {k} loop iterations ({out[0]}) following {list(pre)}"
+            if ended and flag is not False:
+                res.violation("connected-flag:stuck-true:cancelled-disconnect", case, f"{tag}: the device has seen end-of-stream, yet connected={flag}", False, flag)
+                return out[0]
+            if out[0] == "ok" and flag is not False:
+                res.violation("connected-flag:stuck-true:disconnect", case, f"{tag}: disconnect completed, connected={flag}", False, flag)
+                return out[0]
+            wd.model.update(connected=bool(flag))
+            for n, a in enumerate(["disconnect", "connect", "disconnect"]):
+                if not wd.step(a, res, case, len(pre) + 1 + n):
+                    break
+            return out[0]
+        finally:
+            wd.close()
+
+
 TWO_LOOP_PRE = (["connect", "disconnect"], ["connect", "op_ok", "disconnect"], ["ctx_ok"], ["ctx_raise"], ["refused"], ["connect", "drop", "disconnect"],
                 ["connect", "op_abandoned", "disconnect"], [])
 
@@ -534,6 +576,7 @@ def jobs(tier, seed):
         js.append({"part": "bfs", "kind": kind})
     js.append({"part": "tcp"})
     js.append({"part": "twoloops"})
+    js.append({"part": "canceldisconnect"})
     for kind in (1, 2):
         js.append({"part": "tla", "kind": kind})
     for kinds in ((1, 1), (1, 2), (2, 2)):
@@ -545,6 +588,18 @@ def run_job(job):
     res = Res()
     if job["part"] == "tcp":
         real_tcp(res)
+        return res
+    if job["part"] == "canceldisconnect":
+        for kind in (1, 2):
+            for pre in (["connect"], ["connect", "op_ok"], ["connect", "op_garbage"], ["connect", "op_abandoned"], ["connect", "disconnect", "connect"]):
+                outs = set()
+                for k in range(0, 7):
+                    o = cancelled_disconnect(res, kind, pre, k)
+                    outs.add(str(o))
+                    res.traces += 1
+                    res.case(("canceldisconnect", kind, tuple(pre), k), nontrivial=o == "cancelled")
+                res.outcome(("canceldisconnect", kind, tuple(sorted(outs))))
+        res.sample({"part": "canceldisconnect", "api_type": 1, "pre": ["connect", "op_ok"], "k": 0, "expect": "flag agrees with the socket; a complete disconnect and a new connect follow"})
         return res
     if job["part"] == "twoloops":
         for kind in (1, 2):
@@ -607,6 +662,8 @@ def replay(case):
         twin(res, case["kinds"], case["actions"])
     elif case.get("part") == "tcp":
         real_tcp(res)
+    elif case.get("part") == "canceldisconnect":
+        cancelled_disconnect(res, case["kind"], case["pre"], case["k"])
     elif case.get("part") == "twoloops":
         two_loops(res, case["kind"], case["pre"], case["close_first"])
     else:
